@@ -161,6 +161,36 @@ CHECKS.update({
         technique='Coq proof (mutual-exclusion invariant of an interleaving transition system) + generated hook-table tie + schedule-replay correspondence', ref='6/C13'),
 })
 
+CHECKS.update({
+    'C01': dict(
+        text='Coq theorems over a big-step semantics (Python try/except/else/finally rules) of control-flow skeletons of the whole '
+             'request pipeline (Request.run/respond/_do_respond/handle_error/close, get_serving/release_serving, AppResponse, '
+             'InternalRedirector, _TrappedResponse) composed into a PEP 3333 server session; for EVERY environment (each call site '
+             'succeeds or raises anything of its raise-set at any occurrence, every environment condition either way): no '
+             'exception other than KeyboardInterrupt/SystemExit/the server\'s own escapes, start_response is called exactly once '
+             'without exc_info with a 2xx..5xx status, an unexpected failure yields 5xx, and with show_tracebacks off traceback '
+             'text reaches the client only through the trapper running after the request was released (that residue is refuted for '
+             'the faithful model and recorded as a known finding). Decided by a symbolic executor proved sound w.r.t. the semantics. '
+             'The skeletons are REGENERATED from /repo by a fail-closed Python-ast translator on every run and tied to the ones '
+             'the theorems are about by reflexivity (16 tie lemmas); server sessions with injected faults at 12 call sites x hook '
+             'failures x handler shapes are run through the real pipeline and the extracted model and journals compared.',
+        note='Values are abstracted to status class / taint / types; throw_errors off; engine listeners do not raise; the WSGI server '
+             'calls close(); the class-default request in the serving slot is modelled in its steady (closed) state; AppResponse.close '
+             'reached from the server finds iter_response set (an object whose __init__ raised is never returned).',
+        technique='Coq proof (verified symbolic execution of source-generated control-flow skeletons) + reflexivity ties to regenerated skeletons + fault-injection correspondence', ref='6/C01'),
+    'C09': dict(
+        text='Coq theorems: HookMap.run executes a subsequence of THE stable ascending sort of the attached hooks (permutation, sorted, '
+             'stable); after the first failing hook exactly the remaining failsafe hooks run once each in order whatever they do and '
+             'the point raises; on_end_resource runs exactly once in respond() for every environment; per-function bounds of every '
+             'hook point (documented order); on_end_request runs at most once per request object over a whole server session with any '
+             'number of close() calls and internal redirects, and never inside Request.run. The pipeline skeletons are regenerated '
+             'from /repo on every run (ties by reflexivity); probe hooks x faults x streaming outcomes are run through the real '
+             'pipeline and the extracted model and journals (hook point, hook ids) compared.',
+        note='"on_end_request at least once" is not proved (needs an invariant over request identities): c09 states <= 1, the >= 1 half is '
+             'covered by the differential fault enumeration and the oracle; assumes the server calls close().',
+        technique='Coq proof (stable-sort/failsafe lemmas + counting invariants over source-generated skeletons) + reflexivity ties + fault-injection correspondence', ref='6/C09'),
+})
+
 PENDING = {}
 
 
